@@ -242,6 +242,16 @@ fn main() {
             }
             println!("{}", json!({"cases": cases.len(), "prop_mismatch": nprop, "model_drift": 0, "prop": prop, "model": [], "samples": samples}));
         }
+        ("record", "deriveopts") => {
+            let seed: u64 = args[3].parse().unwrap();
+            let n: usize = args[4].parse().unwrap();
+            let mut rng = Rng::new(seed);
+            let ev = vh::deriveopts::record(&mut rng, n);
+            let mut f = std::io::BufWriter::new(std::fs::File::create(&args[5]).unwrap());
+            for e in &ev { writeln!(f, "{}", e).unwrap(); }
+            let impls = ev.iter().filter(|e| e["impl"] == true).count();
+            println!("{}", json!({"events": ev.len(), "runs": ev.len(), "accepted": impls, "panicked": ev.iter().filter(|e| e["panicked"] == true).count()}));
+        }
         ("record", "accum") => {
             let seed: u64 = args[3].parse().unwrap();
             let runs: usize = args[4].parse().unwrap();
